@@ -322,7 +322,7 @@ Lemma parse_num_numeral t tbl n : numeral_ok t tbl n = true ->
 Proof.
   destruct n as [sign zeros mag|text v]; cbn [numeral_ok]; intros H.
   - apply andb_true_iff in H as [Hf Hs]. apply negb_true_iff in Hf. apply N.leb_le in Hs.
-    unfold parse_num, pnum. rewrite Hf, numeral_text_int. cbn [numeral_in_ty numeral_val]. unfold sign_str.
+    unfold parse_num, parse_num_g, pnum. rewrite Hf, numeral_text_int. cbn [numeral_in_ty numeral_val]. unfold sign_str.
     pose proof (int_digits_nonnil zeros mag) as Hnn. pose proof (int_digits_digits zeros mag) as Hdd.
     pose proof (int_digits_val zeros mag) as Hv.
     assert (sign = 0 \/ sign = 1 \/ sign = 2)%N as Hs3 by lia.
@@ -338,7 +338,7 @@ Proof.
         destruct (in_ty t (- Z.of_N mag)); reflexivity.
       * rewrite andb_false_r. cbn [digits_val]. change (is_digit 45%N) with false. cbn iota. reflexivity.
   - apply andb_true_iff in H as [H Hl]. apply andb_true_iff in H as [Hf _].
-    unfold parse_num, pnum. rewrite Hf. cbn [numeral_text numeral_in_ty numeral_val].
+    unfold parse_num, parse_num_g, pnum. rewrite Hf. cbn [numeral_text numeral_in_ty numeral_val negb orb].
     destruct (flookup tbl text) as [[v'|]|]; try discriminate. apply num_same_eq in Hl. now subst.
 Qed.
 
@@ -514,7 +514,7 @@ Section AtomParse.
                | _ : nochar c_pipe m = true |- _ => fail
                | _ => destruct (all_ws_nochar m H)
                end end;
-      unfold range_new_bounds.
+      unfold range_new_bounds, range_new_bounds_g; change (parse_num_g true) with parse_num.
     - (* exact *)
       rewrite nodd_no_split by assumption. now rewrite Pa.
     - (* a..b *)
@@ -558,7 +558,8 @@ Section AtomParse.
     range_new_piece t tbl (print_atom a) = atom_range t a.
   Proof.
     intros Hwf. destruct (core_facts t tbl a Hwf) as (Hnn & Hh & Hr & Hp & Hl & Hrr & Hfb).
-    unfold range_new_piece. rewrite print_atom_decomp, trim_pad by assumption. rewrite Hfb.
+    unfold range_new_piece, range_new_piece_g. change (range_new_bounds_g true) with range_new_bounds.
+    rewrite print_atom_decomp, trim_pad by assumption. rewrite Hfb.
     destruct (atom_is_fb a) eqn:E.
     - destruct a; try discriminate; reflexivity.
     - now apply range_new_bounds_core.
@@ -811,7 +812,8 @@ Section Spec.
     destruct (core_facts t tbl a Ha) as (Hnn & Hh & Hr & Hp & Hla & Hra & Hfb).
     destruct l as [|b l].
     - (* one alternative *)
-      cbn [print_spec]. unfold range_new. rewrite print_atom_decomp, trim_pad by assumption.
+      cbn [print_spec]. unfold range_new, range_new_g. change (range_new_bounds_g true) with range_new_bounds.
+      rewrite print_atom_decomp, trim_pad by assumption.
       rewrite Hfb. destruct (atom_is_fb a) eqn:E.
       + destruct a; try discriminate; reflexivity.
       + rewrite existsb_nochar, Hp. cbn [negb]. now apply range_new_bounds_core.
@@ -827,7 +829,7 @@ Section Spec.
         rewrite T. destruct (strip_last (b :: l)) as [|x y] eqn:E; [congruence|].
         change (print_spec (set_l a [] :: x :: y)) with (print_atom (set_l a []) ++ c_pipe :: print_spec (x :: y)).
         rewrite Pa, <- !app_assoc. reflexivity. }
-      unfold range_new. rewrite Htrim.
+      unfold range_new, range_new_g. change (range_new_piece_g true) with range_new_piece. rewrite Htrim.
       assert (wf (set_l a [] :: strip_last (b :: l)) = true) as Hw2 by (cbn [forallb]; now rewrite Wa, W).
       assert (existsb (N.eqb c_pipe) (print_spec (set_l a [] :: strip_last (b :: l))) = true) as Hpipe.
       { destruct (strip_last (b :: l)) as [|x y]; [congruence|].
